@@ -168,10 +168,9 @@ def _worker(index):
         # compound positions, naming typedefs of anonymous types) says so in the key of every violation of its case:
         # findings of that family and findings on mainstream programs never share a key.
         if r.violations and progen.LAST_FEATURES:
-            sfx = ":program-with-" + "+".join(sorted(progen.LAST_FEATURES))
+            sfx = ":program-with-anonymous-type-constructs"
             for v in r.violations:
-                if not v.key.endswith(sfx):
-                    v.key += sfx
+                v.family = sfx      # applied by the aggregator, unless the plain key is a known finding already
     except build.BuildError:
         raise
     except Exception:
@@ -291,6 +290,9 @@ def _run_check(mod, prop, tier, seed, replay, known, builds, rundir, t0):
         if r.sample is not None and len(samples) < plan.get("samples", 4) and r.status == "ok" and r.nontrivial:
             samples.append(r.sample)
         for v in r.violations:
+            fam = getattr(v, "family", "")
+            if fam and (prop, v.key) not in known and not v.key.endswith(fam):
+                v.key += fam
             viol_keys.setdefault(v.key, []).append((r, v))
     n_nontriv = len(nontriv)
     if hasattr(mod, "count_nontrivial"):
